@@ -48,7 +48,9 @@ var phaseNames = []string{"ShareVRF", "Verify", "Notarize", "Share", "Complete"}
 // ---- plan ----------------------------------------------------------------------------------------
 
 var c37Kinds = []string{"setphase", "share", "notarize", "restart", "settimeout", "finalize", "condreset",
-	"resetphase", "reset", "setfinalizing", "inctimeout", "vote", "getshares", "isfinalized", "gettimeout", "best"}
+	"resetphase", "reset", "setfinalizing", "inctimeout", "vote", "getshares", "isfinalized", "gettimeout", "best",
+	// block-list readers and writers (readers that nest read locks meet pending writers here)
+	"heaviest", "getnotarized", "getproposed", "bestproposed", "propose", "update"}
 
 func genC37(seed uint64, tier string) *sim.Plan {
 	root := sim.NewRNG(seed)
@@ -70,10 +72,13 @@ func genC37(seed uint64, tier string) *sim.Plan {
 			w[i] = sw.Range(1, 6)
 		case i < 12:
 			w[i] = sw.Range(0, 2)
-		default:
+		case i < 16:
 			w[i] = sw.Range(0, 2)
+		default:
+			w[i] = sw.Range(0, 3)
 		}
 	}
+	w[15] += sw.Range(0, 2) // best: GetBestRankedNotarizedBlock
 	// restarts at or after Share leak the round's mutex on the pinned tree (known finding) and end the
 	// run; 4 of 10 plans have no restart so that the other oracles keep their depth
 	if sw.Intn(10) < 4 {
@@ -97,7 +102,7 @@ func genC37(seed uint64, tier string) *sim.Plan {
 			add(kind, a, int64(r.Intn(5)))
 		case "share", "vote":
 			add(kind, a, int64(r.Intn(6)), int64(r.Intn(6)))
-		case "notarize", "finalize":
+		case "notarize", "finalize", "propose", "update":
 			add(kind, a, int64(r.Intn(4)))
 		case "settimeout":
 			add(kind, a, int64(r.Intn(7)))
@@ -337,6 +342,26 @@ func execC37(env *sim.Env, p *sim.Plan) *sim.Result {
 				return b.Hash
 			}
 			return "nil"
+		case "heaviest":
+			if b := rd.GetHeaviestNotarizedBlock(); b != nil {
+				return b.Hash
+			}
+			return "nil"
+		case "bestproposed":
+			if b := rd.GetBestRankedProposedBlock(); b != nil {
+				return b.Hash
+			}
+			return "nil"
+		case "getnotarized":
+			return fmt.Sprintf("%d", len(rd.GetNotarizedBlocks()))
+		case "getproposed":
+			return fmt.Sprintf("%d", len(rd.GetProposedBlocks()))
+		case "propose":
+			rd.AddProposedBlock(blocks[int(st.Int(1, 0))%len(blocks)])
+			return "ok"
+		case "update":
+			rd.UpdateNotarizedBlock(blocks[int(st.Int(1, 0))%len(blocks)])
+			return "ok"
 		}
 		return "?"
 	})
